@@ -524,3 +524,35 @@ Section PollSkeleton.
     gen_sleep_looper iter false (fun _ => None) d max fuel s = poll fuel iter interval max 0 s.
   Proof. intros Hd. unfold gen_sleep_looper. now apply gen_sleep_looper_loop_const_is_model. Qed.
 End PollSkeleton.
+
+(** * pypyr/dsl.py :: Step.set_step_input_context / unset_step_input_context *)
+Lemma set_ctx_same s : set_ctx s (ctx s) = s.
+Proof. destruct s; reflexivity. Qed.
+
+Lemma gen_set_step_input_context_is_model sp s :
+  gen_set_step_input_context sp s = (OOk, set_step_input sp s).
+Proof.
+  unfold gen_set_step_input_context, set_step_input.
+  destruct (s_in sp) as [[|kv d]|]; reflexivity.
+Qed.
+
+Lemma for_each_pop keys s :
+  for_each keys (fun key s4 => (OOk, set_ctx s4 (dict_pop key (ctx s4)))) s
+  = (OOk, set_ctx s (fold_left (fun c k => dict_pop k c) keys (ctx s))).
+Proof.
+  revert s. induction keys as [|k keys IH]; intros s; simpl.
+  - now rewrite set_ctx_same.
+  - rewrite IH. destruct s; reflexivity.
+Qed.
+
+Lemma gen_unset_step_input_context_is_model sp s :
+  gen_unset_step_input_context sp s = (OOk, unset_step_input sp s).
+Proof.
+  unfold gen_unset_step_input_context, unset_step_input.
+  destruct (s_in sp) as [[|kv d]|]; try reflexivity.
+  - simpl. now rewrite set_ctx_same.
+  - cbv zeta. replace (Z.gtb (Z.of_nat (List.length (kv :: d))) 0) with true
+      by (symmetry; apply Z.gtb_lt; simpl List.length; lia).
+    cbv iota. rewrite andthen_ok_id, for_each_pop. f_equal. f_equal.
+    generalize (ctx s). generalize (kv :: d). intros l. induction l as [|x l IH]; intros c; simpl; auto.
+Qed.
